@@ -15,8 +15,8 @@ func init() {
 		&Rule{ID: "LM-SENTINEL", Doc: "each result produced by World.Run is the right sentinel for the branch it is produced on; nil only at the fixpoint", Run: ruleLMSentinel, Min: 5},
 		&Rule{ID: "LM-CHAN", Doc: "no send in a library goroutine can block forever once the spawner/consumer has returned", Run: ruleLMChan, Min: 2},
 		&Rule{ID: "LM-OPTS", Doc: "every variadic option parameter is applied in full or forwarded", Run: ruleLMOpts, Min: 5},
-		&Rule{ID: "LM-CLONE", Doc: "every World built from another World carries its runLimits; NewWorld starts from the defaults", Run: ruleLMClone, Min: 2},
-		&Rule{ID: "LM-ERR", Doc: "every World.Run error in package biscuit is tested and returned", Run: ruleLMErr, Min: 3},
+		&Rule{ID: "LM-CLONE", Doc: "every World built from another World carries its runLimits; NewWorld starts from the defaults", Run: ruleLMClone, Min: 1},
+		&Rule{ID: "LM-ERR", Doc: "every World.Run error in package biscuit is tested and returned", Run: ruleLMErr, Min: 2},
 	)
 }
 
@@ -743,6 +743,35 @@ func ruleLMClone(p *Prog, r *Reporter) {
 			} else {
 				ok := has && strings.Contains(p.D(v), "defaultRunLimits")
 				r.Check(ok, pos, name, "World literal", "new world starts from defaultRunLimits", "a new World does not start from defaultRunLimits")
+			}
+		}
+	}
+	lmWorldStores(p, r)
+}
+
+// lmWorldStores: the world an authorizer evaluates is always a copy of its base world (which carries the
+// configured limits): every value stored into the world field derives from baseWorld.Clone().
+func lmWorldStores(p *Prog, r *Reporter) {
+	az := p.NamedType("biscuit", "authorizer")
+	if az == nil {
+		return
+	}
+	for _, fn := range p.funcsIn("biscuit") {
+		for _, b := range fn.Blocks {
+			for _, in := range b.Instrs {
+				st, ok := in.(*ssa.Store)
+				if !ok {
+					continue
+				}
+				fa, isFA := st.Addr.(*ssa.FieldAddr)
+				if !isFA || fieldName(fa) != "world" || !types.Identical(deref(fa.X.Type()), az) {
+					continue
+				}
+				ok = dependsOn(st.Val, func(x ssa.Value) bool {
+					c, isC := x.(*ssa.Call)
+					return isC && isCallTo(&c.Call, "datalog.World.Clone") && strings.HasSuffix(p.D(c.Call.Args[0]), ".baseWorld")
+				})
+				r.Check(ok, p.instrPos(st), p.FuncName(fn), "authorizer world", "the evaluated world is a copy of the base world", "the authorizer's world is replaced by "+shortD(st.Val)+", which is not a copy of its base world: the limits given through WithWorldOptions are lost (a new world starts from the defaults)")
 			}
 		}
 	}
